@@ -335,7 +335,7 @@ def run_shard(spec, emit):
             version = "3.0"
         else:
             version = rng.choice(["3.0", "3.0", "3.1", "2.0"])
-            doc, desc, _ = gen.make_operation_document(rng, version, negative_friendly=rng.random() < 0.8)
+            doc, desc, _ = gen.make_operation_document(rng, version, composite=(tier == "thorough"), negative_friendly=rng.random() < 0.8)
             expectation = None
         declared, bodies, method, template = declared_parameters(doc, version)
         modes = [GenerationMode.POSITIVE, GenerationMode.NEGATIVE] if both_modes else [GenerationMode.NEGATIVE]
@@ -380,6 +380,14 @@ def run_shard(spec, emit):
                 key = f"C02/violable-operation-got-no-negative-cases:{outcome}"
                 if any(s.get("type") == "string" and not (set(s) - {"type"}) for s, _ in declared["path"].values()):
                     key += ":unconstrained-string-path-parameter"
+                elif any(
+                    isinstance(b[1], dict)
+                    and (b[1].get("nullable") or b[1].get("x-nullable"))
+                    and (isinstance(b[1].get("exclusiveMinimum"), bool) or isinstance(b[1].get("exclusiveMaximum"), bool))
+                    for b in bodies
+                ):
+                    # nullable becomes anyOf[typed, null]; the only mutation of such a body is `not: {anyOf: [...]}`
+                    key += ":nullable-body-with-boolean-exclusive-bound"
                 emit.viol(key, f"outcome={outcome} although an input can be violated", context)
             if expectation == "unknown-but-not-unsatisfiable" and outcome == "unsatisfiable":
                 emit.viol("C02/operation-reported-as-impossible-instead-of-skipped-or-tested", "Unsatisfiable for an operation whose inputs are all optional plain strings", context)
